@@ -18,14 +18,14 @@ ENTRIES = [(REL, "FSA." + m) for m in (
 
 
 def run(ctx):
-    F.rule_v1(ctx)
-    F.rule_v2(ctx)
-    F.rule_b1(ctx)
-    n1(ctx, ["geometry_tools/automata/fsa.py", "geometry_tools/automata/kbmag_utils.py"])
-    CA.rule_c2(ctx, "FSA")
-    F.rule_v1p(ctx)
-    F.rule_rf1(ctx)
-    u1(ctx, ENTRIES, min_functions=25)
+    ctx.do(F.rule_v1)
+    ctx.do(F.rule_v2)
+    ctx.do(F.rule_b1)
+    ctx.do(n1, ["geometry_tools/automata/fsa.py", "geometry_tools/automata/kbmag_utils.py"])
+    ctx.do(CA.rule_c2, "FSA")
+    ctx.do(F.rule_v1p)
+    ctx.do(F.rule_rf1)
+    ctx.do(u1, ENTRIES, min_functions=25)
     ctx.r.assume("set-based model equality over histories and the GAP "
                  "parser's string semantics are not decided (numerical / "
                  "parser behaviour)")
